@@ -20,7 +20,9 @@
 (***************************************************************************)
 EXTENDS Naturals, Integers, Sequences, FiniteSets, TLC
 
-CONSTANT FreeJunction
+CONSTANTS FreeJunction,
+          DcAncestor      \* TRUE (repaired): the delay is measured against the nearest upstream device that has receive
+                          \* times; FALSE: against the direct parent, whatever it is
 
 \* configuration of a behaviour (variables that never change)
 VARIABLES Devs          \* sequence of [open |-> <<b0, b3, b1, b2>>, times |-> <<t0, t3, t1, t2>>, dc |-> BOOLEAN]
@@ -83,8 +85,6 @@ NextAssignable(d, dn) ==
 
 PortAssignedTo(d, c, dn) == IF \E p \in Active(d) : dn[d][p] = c THEN SetMin({p \in Active(d) : dn[d][p] = c}) ELSE 0
 
-IsChildOf(c, d, dn) == IsJunction(d) /\ ~(PortAssignedTo(d, c, dn) # 0 /\ PortAssignedTo(d, c, dn) = LastPort(d))
-
 \* ---- parent search ----------------------------------------------------------------------
 Candidates(j, dn) ==
     {q \in 1..(j - 2) : IsJunction(q) /\ (~FreeJunction \/ FreeDown(q, dn) # {})}
@@ -96,14 +96,22 @@ FindParent(j, dn) ==            \* 0 = none, -1 = topology error
     ELSE j - 1
 
 \* ---- delay ------------------------------------------------------------------------------
-Delta(j, p, dn, acc) ==
-    LET pp == PortAssignedTo(p, j, dn)
+\* the device the delay of j is measured against, and the child of that device through which j is reached
+RECURSIVE Anchor(_, _, _)
+Anchor(via, p, par) ==
+    IF p = 0 THEN [p |-> 0, via |-> via]
+    ELSE IF ~DcAncestor \/ Devs[p].dc THEN [p |-> p, via |-> via]
+    ELSE Anchor(p, par[p], par)
+
+Delta(via, j, p, dn, acc) ==
+    LET pp == PortAssignedTo(p, via, dn)
         parentProp == TotalProp(p)
         thisProp == TotalProp(j)
         parentDelta == Sat(parentProp, thisProp)
+        child == IsJunction(p) /\ ~(pp # 0 /\ pp = LastPort(p))
     IN CASE Topology(p) = "Passthrough" -> parentDelta \div 2
-         [] Topology(p) = "Fork" -> IF IsChildOf(j, p, dn) THEN Sat(PropTimeTo(p, pp), thisProp) \div 2 ELSE parentDelta \div 2
-         [] Topology(p) = "Cross" -> IF IsChildOf(j, p, dn) THEN Sat(IntermediateTo(p, pp), thisProp) \div 2
+         [] Topology(p) = "Fork" -> IF child THEN Sat(PropTimeTo(p, pp), thisProp) \div 2 ELSE parentDelta \div 2
+         [] Topology(p) = "Cross" -> IF child THEN Sat(IntermediateTo(p, pp), thisProp) \div 2
                                      ELSE Sat(parentProp, acc)
          [] OTHER -> 0
 
@@ -128,8 +136,11 @@ Process ==
                  IN IF p # 0 /\ port = 0 THEN status' = "err:Topology" /\ UNCHANGED <<i, parent, down, delay, accum>>
                     ELSE /\ parent' = [parent EXCEPT ![i] = p]
                          /\ down' = dn
-                         /\ IF Devs[i].dc /\ p # 0
-                            THEN LET a == AddSat(accum, Delta(i, p, dn, accum)) IN accum' = a /\ delay' = [delay EXCEPT ![i] = a]
+                         /\ LET an == Anchor(i, p, [parent EXCEPT ![i] = p]) IN
+                            IF Devs[i].dc /\ an.p # 0
+                            THEN LET a == AddSat(accum, Delta(an.via, i, an.p, dn, accum)) IN accum' = a /\ delay' = [delay EXCEPT ![i] = a]
+                            ELSE IF Devs[i].dc /\ DcAncestor
+                            THEN delay' = [delay EXCEPT ![i] = accum] /\ UNCHANGED accum     \* nothing upstream to measure against
                             ELSE UNCHANGED <<accum, delay>>
                          /\ i' = i + 1
                          /\ status' = IF i = N THEN "done" ELSE "run"
